@@ -15,6 +15,8 @@ import ast
 from ..core import AnalysisError, norm, loc, walk_no_nested, attr_chain, call_name
 from ..cfg import CFG
 from ..codecs import check_dict_codecs
+from ..normalize import inline, local_env, expand, canon, ctext, conjuncts, _enclosing
+from ..core import func_params
 
 JSONFIELD = 'fim.slivers.capacities_labels:JSONField'
 MAINT = 'fim.slivers.maintenance_mode:MaintenanceInfo'
@@ -132,22 +134,52 @@ def run(prog, rep):
         # R2
         sf = c.methods.get('_set_fields')
         if sf is not None:
+            sf = inline(prog, c, sf)
             handlers = [h for h in ast.walk(sf) if isinstance(h, ast.ExceptHandler)]
             okh = False
+            fparam = 'forgiving'
+            if fparam not in func_params(sf):
+                raise AnalysisError(f'{c.name}._set_fields has no forgiving parameter')
+
+            def mode_of(node, h):
+                """'strict' / 'forgiving' / 'both': under which value of the forgiving flag is `node` (inside handler h) reached"""
+                _, conds = _enclosing(node, h)
+                for cond in conds:
+                    for cj in conjuncts(canon(cond)):
+                        if isinstance(cj, ast.Name) and cj.id == fparam:
+                            return 'forgiving'
+                        if isinstance(cj, ast.UnaryOp) and isinstance(cj.op, ast.Not) and isinstance(cj.operand, ast.Name) and cj.operand.id == fparam:
+                            return 'strict'
+                return 'both'
             for h in handlers:
-                if h.type is not None and ast.unparse(h.type) == 'AttributeError':
-                    for n in ast.walk(h):
-                        if isinstance(n, ast.If) and ast.unparse(n.test) == 'forgiving':
-                            bad = [x for s in n.body for x in ast.walk(s) if isinstance(x, (ast.Return, ast.Break, ast.Raise))]
-                            rep.instance('R2', f'{c.name}._set_fields: forgiving branch {[norm(s, 50) for s in n.body]}')
-                            okh = True
-                            for b in bad:
-                                rep.violation('R2', loc(c.module, b), f'{c.name}._set_fields', norm(b),
-                                              'after an unknown field the forgiving decoder stops: known fields that follow '
-                                              'it in the text are dropped')
-                            if not any(isinstance(x, ast.Raise) for s in n.orelse for x in ast.walk(s)):
-                                rep.violation('R2', loc(c.module, n), f'{c.name}._set_fields', 'strict mode does not raise',
-                                              'an unknown field must be rejected when not decoding forgivingly')
+                tnames = [x.id for x in ast.walk(h.type) if isinstance(x, ast.Name)] if h.type is not None else []
+                if 'AttributeError' not in tnames:
+                    continue
+                exits = [x for x in walk_no_nested(h) if isinstance(x, (ast.Return, ast.Break, ast.Raise)) and x is not h]
+                modes = [(x, mode_of(x, h)) for x in exits]
+                rep.instance('R2', f'{c.name}._set_fields: unknown-field handler exits {[(norm(x, 30), m) for x, m in modes]}')
+                okh = True
+                for x, m in modes:
+                    if m != 'strict':
+                        rep.violation('R2', loc(c.module, x), f'{c.name}._set_fields', norm(x),
+                                      'after an unknown field the forgiving decoder stops: known fields that follow '
+                                      'it in the text are dropped')
+                if not any(isinstance(x, ast.Raise) and m == 'strict' for x, m in modes):
+                    rep.violation('R2', loc(c.module, h), f'{c.name}._set_fields', 'strict mode does not raise',
+                                  'an unknown field must be rejected when not decoding forgivingly')
+                # the handler must sit inside the per-field loop: a try that wraps the whole loop ends the loop at the first
+                # unknown field even when it forgives
+                tr = h._parent
+                anc, inside_loop = getattr(tr, '_parent', None), False
+                while anc is not None and anc is not sf:
+                    if isinstance(anc, (ast.For, ast.While)):
+                        inside_loop = True
+                    anc = getattr(anc, '_parent', None)
+                wraps_loop = any(isinstance(x, (ast.For, ast.While)) for st in tr.body for x in ast.walk(st))
+                if not inside_loop and wraps_loop:
+                    rep.violation('R2', loc(c.module, tr), f'{c.name}._set_fields', 'unknown-field handler wraps the field loop',
+                                  'the try/except that forgives an unknown field encloses the whole loop over the fields: the first '
+                                  'unknown field ends the loop and every field after it in the text is silently dropped')
             if not okh:
                 rep.violation('R2', loc(c.module, sf), f'{c.name}._set_fields', 'no forgiving unknown-field handler',
                               f'{c.name} cannot decode text that carries an unknown (newer) field')
@@ -155,7 +187,7 @@ def run(prog, rep):
             for n in ast.walk(sf):
                 if isinstance(n, ast.For):
                     for x in ast.walk(n):
-                        if isinstance(x, (ast.Return, ast.Break)):
+                        if isinstance(x, (ast.Return, ast.Break)) and not any(isinstance(hh, ast.ExceptHandler) and any(y is x for y in ast.walk(hh)) for hh in ast.walk(n)):
                             rep.violation('R2', loc(c.module, x), f'{c.name}._set_fields', norm(x),
                                           'the field loop ends early: later fields are not set')
     fj = jf.methods.get('from_json')
@@ -165,13 +197,29 @@ def run(prog, rep):
                             for k in calls[0].keywords):
         rep.violation('R2', loc(mod, fj), 'JSONField.from_json', 'does not decode forgivingly',
                       'from_json must pass forgiving=True so that unknown keys are tolerated')
-    ftxt = ast.unparse(fj)
-    if 'ret = cls()' not in ftxt or 'json.loads(json_string)' not in ftxt:
+    fji = inline(prog, jf, fj)
+    fparams = [p for p in func_params(fji) if p != 'cls']
+    fenv = local_env(fji)
+    builds = [n for n in ast.walk(fji) if isinstance(n, ast.Call) and isinstance(n.func, ast.Name) and n.func.id == 'cls']
+    loads = [n for n in ast.walk(fji) if isinstance(n, ast.Call) and call_name(n) == 'loads' and n.args and
+             any(isinstance(x, ast.Name) and x.id in fparams for x in ast.walk(expand(n.args[0], fenv)))]
+    if not builds or not loads:
         rep.violation('R2', loc(mod, fj), 'JSONField.from_json', 'shape', 'from_json must build cls() from json.loads(text)')
     # empty text <-> absent
     tj = jf.methods['to_json']
     rep.instance('R2', 'JSONField: nothing set -> "" ; "" -> None')
-    if "return ''" not in ast.unparse(tj) or 'len(json_string) == 0' not in ftxt:
+    empty_ret = any(isinstance(r, ast.Return) and isinstance(r.value, ast.Constant) and r.value.value == '' for r in ast.walk(inline(prog, jf, tj)))
+    empty_test = False
+    for n in ast.walk(fji):
+        if isinstance(n, ast.If) and any(isinstance(r, ast.Return) and (r.value is None or (isinstance(r.value, ast.Constant) and r.value.value is None)) for r in n.body):
+            t = canon(n.test)
+            alts = t.values if isinstance(t, ast.BoolOp) and isinstance(t.op, ast.Or) else [t]
+            for alt in alts:
+                if isinstance(alt, ast.UnaryOp) and isinstance(alt.op, ast.Not) and isinstance(alt.operand, ast.Name) and alt.operand.id in fparams:
+                    empty_test = True
+                if isinstance(alt, ast.Compare) and isinstance(alt.ops[0], ast.Eq) and any(isinstance(x, ast.Constant) and x.value == '' for x in [alt.left] + alt.comparators):
+                    empty_test = True
+    if not empty_ret or not empty_test:
         rep.violation('R2', loc(mod, tj), 'JSONField.to_json', 'empty value convention',
                       'a value with nothing set must encode as empty text and empty text decode as absent')
 
@@ -179,7 +227,17 @@ def run(prog, rep):
     upd = jf.methods.get('update')
     params = [a.arg for a in upd.args.args if a.arg != 'cls']
     src = params[0]
-    fresh = [n for n in walk_no_nested(upd) if isinstance(n, ast.Assign) and ast.unparse(n.value) == f'{src}.__class__()']
+    def _fresh(v):
+        if not (isinstance(v, ast.Call) and not v.args and not v.keywords):
+            return False
+        f = v.func
+        if isinstance(f, ast.Attribute) and f.attr == '__class__' and isinstance(f.value, ast.Name) and f.value.id == src:
+            return True
+        if isinstance(f, ast.Call) and isinstance(f.func, ast.Name) and f.func.id == 'type' and len(f.args) == 1 and \
+                isinstance(f.args[0], ast.Name) and f.args[0].id == src:
+            return True
+        return False
+    fresh = [n for n in walk_no_nested(upd) if isinstance(n, ast.Assign) and _fresh(n.value) and isinstance(n.targets[0], ast.Name)]
     rep.instance('R3', f'JSONField.update: result {norm(fresh[0]) if fresh else "?"}')
     if not fresh:
         rep.violation('R3', loc(mod, upd), 'JSONField.update', 'result is not a fresh instance',
@@ -209,7 +267,8 @@ def run(prog, rep):
     mi = prog.cls(MAINT)
     mmod = mi.module
     guard_txt = 'self._lock'
-    for name, fn in mi.methods.items():
+    for name, fn0 in mi.methods.items():
+        fn = inline(prog, mi, fn0) if name != '_set' else fn0
         muts = []
         for n in walk_no_nested(fn):
             if isinstance(n, (ast.Assign, ast.AugAssign)):
@@ -238,7 +297,7 @@ def run(prog, rep):
                 rep.violation('R4', loc(mmod, fn), fq, f'called from {cq}', '_set bypasses the finalized guard and may only be used while building a record')
             continue
         cfg = CFG(fn)
-        tests = [t for t in cfg.nodes if t.kind == 'test' and t.tag == 'if' and ast.unparse(t.ast) == guard_txt]
+        tests = [t for t in cfg.nodes if t.kind == 'test' and t.tag == 'if' and ctext(t.ast) in (guard_txt, guard_txt + ' is True', guard_txt + ' == True')]
         for mnode in muts:
             stn = [x for x in cfg.nodes if x.ast is not None and x.kind == 'stmt' and any(y is mnode for y in ast.walk(x.ast))]
             rep.instance('R4', f'{fq}: {norm(mnode)} guarded by `if self._lock: raise`')
@@ -270,10 +329,14 @@ def run(prog, rep):
     # finalize sets the flag; to_json requires finalized; from_json finalizes
     fz = mi.methods.get('finalize')
     rep.instance('R4', 'finalize sets the flag; from_json finalizes')
-    if fz is None or 'self._lock = True' not in ast.unparse(fz):
+    if fz is None or not any(isinstance(n, ast.Assign) and any(ast.unparse(t) == guard_txt for t in n.targets) and isinstance(n.value, ast.Constant)
+                             and n.value.value is True for n in ast.walk(fz)):
         rep.violation('R4', loc(mmod, mi.node), 'MaintenanceInfo.finalize', 'does not set the flag', 'finalize must lock the record')
     mfj = mi.methods.get('from_json')
-    if 'ret.finalize()' not in ast.unparse(mfj):
+    mfj_i = inline(prog, mi, mfj)
+    fin_calls = [c for c in ast.walk(mfj_i) if isinstance(c, ast.Call) and call_name(c) == 'finalize']
+    if not fin_calls and not any(isinstance(n, ast.Assign) and any(ast.unparse(t).endswith('._lock') for t in n.targets) and isinstance(n.value, ast.Constant)
+                                 and n.value.value is True for n in ast.walk(mfj_i)):
         rep.violation('R4', loc(mmod, mfj), 'MaintenanceInfo.from_json', 'decoded record is not finalized', 'a decoded record must be finalized')
     # nothing else resets the flag
     for name, fn in mi.methods.items():
@@ -287,6 +350,7 @@ def run(prog, rep):
         fn = c.methods.get('to_json')
         if fn is None:
             continue
+        fn = inline(prog, c, fn)
         defaults = {}
         for k in c.mro():
             for f, e in init_defaults(k).items():
